@@ -83,6 +83,13 @@ let init () =
           | Err _ -> "err"
           | Panic -> "panic"))
     | _ -> "bad-args");
+  (* bparse <T> <ver> <dialect> <hex> [g=..] : parse and dump only *)
+  register "bparse" (fun args -> match args with
+    | name :: ver :: dial :: h :: rest ->
+      (match lookup name ver dial rest with
+       | None -> "not-in-model"
+       | Some m -> show_parse (m.m_dec (bytes_of_hex h)))
+    | _ -> "bad-args");
   (* benc <T> <ver> <dialect> <tree> [g=..] : encode the value, parse the bytes back; wf = the value is in the
      model's domain (the harness sends in-domain values only and answers wf=1) *)
   register "benc" (fun args -> match args with
@@ -94,6 +101,13 @@ let init () =
          let e = m.m_enc v in
          "enc=" ^ hex_of_bytes e ^ " back=" ^ show_parse (m.m_dec e) ^ " wf=" ^ bool_s (m.m_wf v))
     | _ -> "bad-args");
+  (* ptable : the parameter table (declaration order, id:kind) - compared with the one the harness reads off the
+     real struct and parser by reflection and probing *)
+  register "ptable" (fun _ ->
+    String.concat "," (Stdlib.List.map (fun (id, k) ->
+      hex_of_n id ^ ":" ^ (match k with
+        | Params.K32 -> "32" | Params.K16 -> "16" | Params.K8 -> "8" | Params.KStr -> "s"
+        | Params.KB4 -> "b4" | Params.KB8 -> "b8" | Params.KNone -> "none")) Params.param_fields));
   register "time2bcd" (fun args -> match args with
     | [h] -> hex_of_bytes (time2bcd (bytes_of_hex h)) | _ -> "bad-args");
   register "bcd2time" (fun args -> match args with
